@@ -118,6 +118,10 @@ def r15_4_5(ctx: Ctx):
         if not m.func.module.name.startswith('iOpt.problems') or m.func.kind in ('module', 'classbody'):
             continue
         n4 += 1
+        if m.func.name == 'Calculate' and m.kind == 'attr' and m.field == 'value' and \
+                isinstance(m.base_expr, ast.Name) and len(m.func.param_names) > 2 and \
+                m.base_expr.id == m.func.param_names[2]:
+            continue        # the supplied holder: whose object that is, is the caller's business (C04/C12)
         for o in m.bases:
             if o.is_singleton_scope and o.kind in ('ndarray', 'list', 'dict', 'set', 'inst', 'ext', 'cls') and \
                     not m.init_self:
